@@ -1541,3 +1541,9 @@ mod tests {
         assert!(!msg.is_valid());
     }
 }
+
+// Verification harnesses (Kani); the sources live outside this repository.
+#[cfg(feature = "verif")]
+mod verif {
+    include!(concat!(env!("VHOST_VERIF_DIR"), "/harness/vu_message.rs"));
+}
